@@ -370,9 +370,11 @@ def r5(ctx):
         hasb = vs.get(("field", S, "bias"))
         D0 = ("call", "activation::Function::backward", (("field", S, "activation"), ("p", oname)))
         G = ("p", gname) if gshape == "Single" else ("call", "tensor::Tensor::flatten", (("p", gname),))
-        muts = [e for e in eff if e[0] in ("mut", "mutcall", "set", "push")]
+        had = [e for e in eff if e[0] == "mut" and e[1] == "tensor::Tensor::hadamard"]
+        dloc = had[0][2] if had else None
+        # changes of the local holding delta (a deferred initialisation of some other local is not one)
+        muts = [e for e in eff if (e[0] in ("mut", "push") and e6.contains(e[2] if e[0] == "mut" else e[1], dloc)) or (e[0] == "set" and e6.contains(e[1], dloc)) or e[0] == "mutcall"]
         res["once"].append(len(muts) == 1)
-        had = [e for e in muts if e[0] == "mut" and e[1] == "tensor::Tensor::hadamard"]
         d0s = e6.find_terms(val, lambda t: t[0] == "call" and t[1] == "activation::Function::backward")
         res["delta"].append((bool(d0s) and all(d == D0 for d in d0s), e6.show(d0s[0], 2) if d0s else "?"))
         okh = len(had) == 1 and had[0][4] == D0 and len(had[0][3]) == 2 and had[0][3][0] == G and e6.show(had[0][3][1]) == "self.scale(self.loops)"
@@ -419,7 +421,8 @@ def r5(ctx):
 
 def r6(ctx):
     c = ctx.crate
-    fn = ctx.fn("maxpool::Maxpool::backward")
+    from ..hir import matchified as _mf6
+    fn = _mf6(ctx.fn("maxpool::Maxpool::backward"))
     ex = mac.extract(c, fn)
     sts = [s for s in ex.stmts if isinstance(s.target, Access) and len(s.target.idx) == 3]
     adds = [s for s in sts if s.reads and s.op in ("+=", "=")]
@@ -437,8 +440,83 @@ def r6(ctx):
         r = rd[0]
         # iterator loop source: max[c][h][w].iter() with the same c,h,w as the read
         itl = [l for l in s.loops if isinstance(l[0], tuple)]
-        want = "max[%s][%s][%s].iter()" % tuple(str(i).split("#")[0] for i in r.idx)
-        src_ok = len(itl) == 1 and itl[0][1].replace(" ", "") == want.replace(" ", "")
+        # the iterated source is <recorded indices>[c][h][w] with the read's own c, h, w, where <recorded indices> is the first (only)
+        # entry of the Quintuple data of the `max` parameter - whatever the local holding it is called
+        src_ok = False
+        srcs0 = getattr(ex, "iter_sources", {}).get(itl[0][0][1]) if len(itl) == 1 else None
+        if srcs0:
+            from ..hir import let_table as _lt6, resolve as _rs6
+            T6 = _lt6(fn["body"])
+            itn = strip(srcs0[0])
+            while itn.get("k") == "mcall" and itn["name"] in ("iter", "into_iter", "copied", "cloned") and not itn["args"]:
+                itn = strip(itn["recv"])
+            ix = []
+            while itn.get("k") == "index":
+                ix.append(itn["i"])
+                itn = strip(itn["b"])
+            ix.reverse()
+            try:
+                same_idx = len(ix) == 3 and [str(ex.plain(i_)) for i_ in ix] == [str(i_) for i_ in r.idx]
+            except ValueError:
+                same_idx = False
+            def let_init(n_):
+                n_ = strip(n_)
+                seen_ = 0
+                while n_ is not None and n_.get("k") == "local" and seen_ < 6:
+                    seen_ += 1
+                    nxt = None
+                    for s_ in walk(fn["body"]):
+                        if s_.get("k") == "let" and s_["pat"].get("k") == "bind" and s_["pat"]["hid"] == n_["hid"] and s_.get("init") is not None:
+                            nxt = strip(s_["init"])
+                            break
+                    if nxt is None:
+                        break
+                    n_ = nxt
+                    while n_.get("k") == "blk" and not n_["b"]["stmts"] and n_["b"]["tail"] is not None:
+                        n_ = strip(n_["b"]["tail"])
+                    if n_.get("k") == "ref":
+                        n_ = strip(n_["x"])
+                return n_
+
+            def first_of(n_):
+                """x.get(0).unwrap() | x.first().unwrap() | x[0]  ->  x"""
+                n_ = strip(n_)
+                if n_.get("k") == "ref":
+                    n_ = strip(n_["x"])
+                if n_.get("k") == "mcall" and n_["name"] in ("unwrap", "expect"):
+                    g_ = strip(n_["recv"])
+                    if g_.get("k") == "mcall" and ((g_["name"] == "get" and e4.lit_value(g_["args"][0]) == "0") or (g_["name"] == "first" and not g_["args"])):
+                        return strip(g_["recv"])
+                if n_.get("k") == "index" and e4.lit_value(n_["i"]) == "0":
+                    return strip(n_["b"])
+                return None
+
+            def quintuple_payload(m_):
+                """match &max.data { Quintuple(b) => BODY, _ => panic }  ->  (hid of b, BODY)"""
+                if m_ is None or m_.get("k") != "match":
+                    return None
+                sc = strip(m_["scrut"])
+                while sc.get("k") in ("ref",):
+                    sc = strip(sc["x"])
+                live_ = [a_ for a_ in m_["arms"] if e4.arm_variant(a_)[0] == "tensor::Data::Quintuple"]
+                if not (sc.get("k") == "field" and sc["f"] == "data" and e4.local_hid(sc["b"]) == mparam and len(live_) == 1 and e4.arm_variant(live_[0])[1]):
+                    return None
+                bd = strip(live_[0]["body"])
+                while bd.get("k") == "blk" and not bd["b"]["stmts"]:
+                    bd = strip(bd["b"]["tail"])
+                return e4.arm_variant(live_[0])[1][0][1], bd
+            mparam = pat_binds(fn["params"][2])[0][1] if len(fn["params"]) > 2 else None
+            base = let_init(itn)
+            from_max = False
+            qp = quintuple_payload(base)
+            if qp is not None:
+                inner = first_of(qp[1])
+                from_max = inner is not None and e4.local_hid(inner) == qp[0]
+            else:
+                inner = first_of(base) if base is not None else None
+                qp2 = quintuple_payload(let_init(inner)) if inner is not None else None
+                from_max = qp2 is not None and e4.local_hid(qp2[1]) == qp2[0]
+            src_ok = same_idx and from_max
         same_c = str(s.target.idx[0]) == str(r.idx[0])
         tgt_from_iter = all("#" in str(i) and str(i) not in [str(j) for j in r.idx] for i in s.target.idx[1:])
         if not tgt_from_iter and len(itl) == 1:
@@ -479,7 +557,7 @@ def r8(ctx):
         ctx.check("R01.8", nm + ":input-reshaped-to-inputs", len(ins) >= 1, "input-source", where, "input.get_triple(self.inputs)")
         stmts = top_stmts_of(fn["body"])
         tail = strip(stmts[-1])
-        comps = [strip(x) for x in tail["xs"]] if tail.get("k") == "tup" else []
+        comps = [strip(resolve(x, T)) for x in tail["xs"]] if tail.get("k") == "tup" else []       # (named temporaries resolved)
         ok = (len(comps) == 3 and comps[0].get("k") == "call" and comps[0]["callee"] == "tensor::Tensor::triple" and comps[1].get("k") == "call" and comps[1]["callee"] == "tensor::Tensor::quadruple"
               and pretty(comps[2]).endswith("None"))
         ctx.check("R01.8", nm + ":result-order", ok, "result:" + short(pretty(tail), 80), where, "(Tensor::triple(dX), Tensor::quadruple(dK), None)")
@@ -556,13 +634,33 @@ def r3_kernel_helpers(ctx):
         others = [e for e in muts if e not in revs]
 
         def depth(t):
+            """nesting depth of a receiver below the parameter: one level per `element of` (iterator walks) or `[i]` with i walking 0..len(base)"""
             d = 0
-            while isinstance(t, tuple) and t and t[0] == "elem":
-                d += 1
-                t = t[1]
-                a = e6.is_call(t, "for_each") or e6.is_call(t, "map") or e6.is_call(t, "enumerate")
-                t = a[0] if a else t
+            while isinstance(t, tuple) and t:
+                t = e6.strip_upd(t)
+                if t[0] == "elem":
+                    d += 1
+                    t = t[1]
+                    a = e6.is_call(t, "for_each") or e6.is_call(t, "map") or e6.is_call(t, "enumerate")
+                    t = a[0] if a else t
+                elif t[0] == "idx" and isinstance(t[2], tuple) and t[2] and t[2][0] == "elem" and e6.range_of(t[2][1]) is not None \
+                        and e6.range_of(t[2][1])[0] == ("lit", "0") and e6.is_call(e6.range_of(t[2][1])[1], "len", 1) is not None \
+                        and strip_loop(e6.is_call(e6.range_of(t[2][1])[1], "len", 1)[0]) == strip_loop(t[1]):
+                    d += 1
+                    t = t[1]
+                elif t[0] in ("loopin", "loopout") and t[1] == kparam[1]:
+                    return d, kparam
+                else:
+                    break
             return d, t
+
+        def strip_loop(t):
+            """the parameter seen from inside a loop that mutates it is still the parameter"""
+            if isinstance(t, tuple):
+                if t and t[0] in ("loopin", "loopout") and t[1] == kparam[1]:
+                    return kparam
+                return tuple(strip_loop(x) for x in e6.strip_upd(t))
+            return t
         ds = sorted(depth(e[4])[0] for e in revs)
         roots = {repr(depth(e[4])[1]) for e in revs}
         ok = ds == [1, 2] and roots == {repr(kparam)} and not others and e6.root_name(val) in (None, kparam[1]) and (val == kparam or e6.root_name(val) == kparam[1])
